@@ -34,6 +34,7 @@ class Invoke:
     dur: int = 1                  # ms the Recorder service takes (async engine)
     ok: bool = True               # returns (True) or raises (False)
     val: int = 0
+    machine: bool = False         # the service is a child MACHINE (reaches its final state after `dur` ms); async engine only
 
 
 @dataclass
